@@ -137,6 +137,29 @@ def gradient_tracer_reads_only_rho_and_depths():
 # ---------------------------------------------------------------------------
 
 @harness(clause="reciprocity")
+def piecing_of_the_z_integral_is_antisymmetric_in_its_limits():
+    """the contract assumed by corr_stub below, proved on the real _z_int_uniform_correction (also C01):
+    integrating from z0 to z1 and from z1 to z0 differ by the sign only, for every position of the limits
+    relative to z_uniform (in particular for a downward crossing)"""
+    P = resolve(SP)
+    Id = ufunc("I_deep")
+    Is = ufunc("I_shallow")
+
+    def integrand(z, beta, ice, deep=False):
+        return ite(deep, Id(z), Is(z))
+    ice, n0, k, a, lo = exp_ice()
+    z0 = real("z0")
+    z1 = real("z1")
+    zu = real("z_uniform")
+    beta = real("beta")
+    fwd = P._z_int_uniform_correction(z0, z1, zu, beta, ice, integrand)
+    bwd = P._z_int_uniform_correction(z1, z0, zu, beta, ice, integrand)
+    prove("antisymmetric", eq(fwd, -bwd))
+    prove("downward-crossing-is-the-sum-of-the-regime-integrals",
+          implies(And(z1 < zu, zu <= z0), eq(fwd, (Is(zu) - Is(z0)) + (Id(z1) - Id(zu)))))
+
+
+@harness(clause="reciprocity")
 def swapped_tracer_poses_the_same_root_problem():
     """swapping source and receiver leaves z0 = min, z1 = max, rho, n0, max_angle and the distance
     function r(angle) unchanged: the root search is called with identical arguments (A6 + determinism:
